@@ -231,7 +231,8 @@ class _Distributor(LinearOperator):
 
 
 class _AmplitudeMatern(Operator):
-    def __init__(self, pow_spc, scale, cutoff, loglogslope, totvol):
+    def __init__(self, pow_spc, scale, cutoff, loglogslope, totvol,
+                 position_volume=None):
         expander = ContractionOperator(pow_spc, spaces=None).adjoint
         k_squared = makeField(pow_spc, pow_spc.k_lengths**2)
 
@@ -259,8 +260,15 @@ class _AmplitudeMatern(Operator):
         vol1 = makeField(pow_spc, vol1)
         op = vol0 + vol1*op
 
-        # std = sqrt of integral of power spectrum
-        self._fluc = op.power(2).integrate().sqrt()
+        # std of the field about its mean = sqrt of the sum of the power in all
+        # modes but the zero-mode, in units of the position space volume (the
+        # harmonic transform of mode k contributes `op[k]/position_volume`)
+        if position_volume is None:
+            position_volume = totvol
+        rho = np.array(pow_spc.dvol/pow_spc.harmonic_partner.scalar_dvol)
+        rho[0] = 0.
+        rho = makeOp(makeField(pow_spc, rho))
+        self._fluc = rho(op.power(2)).sum().sqrt().scale(1./position_volume)
         self.apply = op.apply
         self._domain, self._target = op.domain, op.target
         self._repr_str = "_AmplitudeMatern: " + op.__repr__()
@@ -651,7 +659,7 @@ class CorrelatedFieldMaker:
             totvol = target_subdomain[-1].total_volume
         pow_spc = PowerSpace(harmonic_partner)
         amp = _AmplitudeMatern(pow_spc, scale, cutoff, loglogslope,
-                               totvol)
+                               totvol, target_subdomain[-1].total_volume)
 
         self._a.append(amp)
         self._target_subdomains.append(target_subdomain)
